@@ -64,11 +64,16 @@ pub fn run_which(report: &Report, thorough: bool, which: Which) -> Evidence {
         which,
         user_ac: if c.user_ac { USER_AC.iter().map(|(k, v)| (k.to_string(), v.to_string())).collect() } else { HashMap::new() },
     };
-    let mk_ctx = |c: &Cfg, xdg: &str| -> Ctx {
+    let mk_ctx = |c: &Cfg, xdg: &str, job: usize| -> Ctx {
         let mut o = Opts::phonetic(&real_db(), xdg);
         o.english = c.english;
         o.ansi = c.ansi;
         o.smart = c.smart;
+        // one job in four each: a context re-configured from the inverted options, one switched over from a fixed layout, one built
+        // on a used Config object
+        o.via_update = job % 4 == 1;
+        o.via_switch = job % 4 == 2;
+        o.churn = job % 4 == 3;
         crate::drv::clear_user_files(&o);
         if c.user_ac {
             let m: serde_json::Map<String, serde_json::Value> = USER_AC.iter().map(|(k, v)| (k.to_string(), json!(v))).collect();
@@ -87,7 +92,7 @@ pub fn run_which(report: &Report, thorough: bool, which: Which) -> Evidence {
             |xdg, idx| {
                 let cfg = &cfgs[idx % cfgs.len()];
                 let oracle = mk_oracle(cfg);
-                let ctx = mk_ctx(cfg, xdg);
+                let ctx = mk_ctx(cfg, xdg, idx / cfgs.len());
                 let mut w = Walker::new(ctx, &oracle);
                 job(&mut w, idx / cfgs.len());
                 merge(&mut total.lock().unwrap(), &w.cnt);
